@@ -106,7 +106,10 @@ def run_cli(image_path, rpc, target=None):
 class Driver:
     """one product on one filesystem with a private user-cache dir; executes macro operations"""
 
-    def __init__(self, level, fsname, seed, images=(("HH", None, 4, 3), ("HV", None, 3, 2)), nonascii=False):
+    def __init__(self, level, fsname, seed, images=None, nonascii=False):
+        if images is None:
+            # level 1.1 products are ScanSAR-like: several scans of one polarisation (names differ only after the last dot)
+            images = (("HH", "F1", 4, 3), ("HH", "F2", 3, 2)) if level == "1.1" else (("HH", None, 4, 3), ("HV", None, 3, 2))
         self.b = product.build_product(level=level, images=images, seed=seed)
         self.fsname = fsname
         self.nonascii = nonascii
@@ -125,8 +128,19 @@ class Driver:
 
     # ---- observation
     def local_path(self, m):
+        """the user-cache file of image m: by name, else any cache file whose document refers to that image"""
         hits = glob.glob(os.path.join(self.cache_home, "**", self.names[m] + ".index"), recursive=True)
-        return hits[0] if hits else None
+        if hits:
+            return hits[0]
+        for p in glob.glob(os.path.join(self.cache_home, "**", "*"), recursive=True):
+            if os.path.isfile(p):
+                try:
+                    doc = json.load(open(p))
+                    if doc["data"]["data"]["data"]["url"] == self.names[m]:
+                        return p
+                except Exception:
+                    continue
+        return None
 
     def expected_local_path(self, m):
         import fsspec
@@ -292,6 +306,22 @@ class Driver:
             obs["src"] = src
             obs["index_reads"] = sorted({e["f"] for e in evs if e["e"] == "cat" and e["f"].endswith(".index")})
         return obs
+
+    def relocate(self):
+        """local products only: copy the product directory (with whatever index files lie next to the images) to a new
+        place, then overwrite the images at the OLD place with different pixels; the driver continues at the new place"""
+        import shutil
+
+        old = self.url.replace("file://", "")
+        new = os.path.join(checklib.fresh_dir("moved_"), "product")
+        shutil.copytree(old, new)
+        other = product.build_product(level=self.b.meta["level"], images=[(im["pol"], im["scan"], im["n"], im["p"]) for im in self.b.images],
+                                      seed=self.b.meta["seed"] + 4242)
+        for im in other.images:
+            with open(os.path.join(old, im["name"]), "wb") as f:
+                f.write(other.files[im["name"]])
+        self.url = ("file://" if self.url.startswith("file://") else "") + new
+        self.ref = {}
 
     def close(self):
         imgrun.drop_from_fs(self.url, self.fsname)
